@@ -97,6 +97,28 @@ def rule_mirror(ctx: Ctx) -> None:
         ctx.add("1-mirror", fb, fb.node, not diff, f"{b} uses the same steps as {a} ({len(sa)} callees)" if not diff else f"{b} and {a} do not perform the same steps: {sorted(diff)} on one side only", key=f"mirror {a}")
         ok = isinstance(fb.node, ast.AsyncFunctionDef) and not isinstance(fa.node, ast.AsyncFunctionDef)
         ctx.add("1-mirror", fb, fb.node, ok, "async def / def" if ok else "the pair is no longer (def, async def)", key=f"kinds {a}")
+        # ... and hands its own parameters on to the shared steps in the same way (a parameter the sync twin forwards and the async
+        # twin keeps to itself is silently replaced by the callee's default on the async path only)
+        from ..flow import bind_args
+
+        def forwards(fn: FuncInfo) -> dict[tuple[str, str], str]:
+            out: dict[tuple[str, str], str] = {}
+            for s_ in ctx.cg.sites.get(fn.qualname, []):
+                if s_.kind != "call":
+                    continue
+                for callee in s_.callees:
+                    if not callee.module.name.startswith("pipefunc"):
+                        continue
+                    for prm, a_ in bind_args(s_.node, callee).items():
+                        if isinstance(a_, ast.Name) and a_.id in fn.param_names():
+                            out[(_canon(callee.name), prm)] = a_.id
+            return out
+
+        fw_a, fw_b = forwards(fa), forwards(fb)
+        steps_b = {k[0] for k in fw_b}
+        lost = sorted((k, v) for k, v in fw_a.items() if k not in fw_b and v in fb.param_names() and k[0] in steps_b | {_canon(n) for n in _direct(ctx, fb)[0]})
+        ctx.add("1-mirror", fb, fb.node, not lost, f"{b} forwards its parameters to the shared steps like {a} ({len(fw_a)} forwarded)" if not lost else
+                f"{a} passes its `{lost[0][1]}` on to {lost[0][0][0]}({lost[0][0][1]}=...), {b} does not: on the async path the callee's default is used instead and map_async no longer behaves like map", key=f"forwards {a}")
     rm, rma = P.func(f"{RUN}.run_map"), P.func(f"{RUN}.run_map_async")
     inner = P.func(f"{RUN}.run_map_async._run_pipeline")
 
